@@ -145,11 +145,22 @@ class C13(C01):
                 else:
                     h["alive"] = False
             rnd += 1
+        # bases beyond 4 GiB (sparse foreign archives, ZIP64 blocks in every allowed layout): one append round, old entries
+        # must be listed exactly as before (shared with C08)
+        from props.c08 import C08, G
+        helper = C08(self.tier, self.seed)
+        for S, pre in ((G + 1, 0), (100, G + 5), (G + 1, G)):
+            for layout in ("min", "all", "after-other"):
+                line, meta = helper.foreign_sparse(S, pre, layout, op="bigappend", verify=1 << 20)
+                cases.append((line, dict(meta, k="bigappend")))
         return cases
 
     def oracle(self, line, meta, out):
         if out is None or "PANIC" in out or out.startswith("ABORT") or out == "TIMEOUT":
             return "a writer call panicked or the process died: %s" % (out or "")[:160]
+        if isinstance(meta, dict) and meta.get("k") == "bigappend":
+            from props.c08 import C08
+            return C08.oracle(self, line, meta, out)
         if out.startswith("[AppendErr"):
             return "a readable archive could not be opened for append: " + out[:120]
         calls, data = wprog.final_bytes(out)
@@ -220,6 +231,8 @@ class C13(C01):
         return None
 
     def nontrivial(self, line, meta, out):
+        if meta.get("k") == "bigappend":
+            return True
         return (meta["old"] is not None and len(meta["old"]["entries"]) > 0) or len(meta["ops"]) > 1
 
 CHECK = C13
